@@ -1634,6 +1634,42 @@ func c14post(k *mon.Case, thorough bool) {
 		}
 	}
 	k.Eval()
+	// read-modify-write: one glyph renamed in place (same backing array, same
+	// length), encoded again right after an Encode of the same list - the
+	// bytes must carry the new name (no PRNG use: the cases stay as they were)
+	if n := len(info.Names); n > 0 {
+		i := k.Index % n
+		old := info.Names[i]
+		renamed := old + ".r"
+		if len(renamed) > 200 || isStd[renamed] {
+			renamed = fmt.Sprintf("renamed.%d", i)
+		}
+		info.Names[i] = renamed
+		var enc2 []byte
+		if k.Guard("post.Info.Encode", func() { enc2 = info.Encode() }) {
+			return
+		}
+		k.Eval()
+		tr2, err := tabread.ReadPost(enc2)
+		switch {
+		case err != nil:
+			k.Fail("mismatch", "post:rename-then-encode:independent-reader-rejects", "%v", err)
+		case len(tr2.Names) != n:
+			k.Fail("mismatch", "post:rename-then-encode:count", "%d names in the bytes after renaming glyph %d, %d in the list", len(tr2.Names), i, n)
+		default:
+			for j := range tr2.Names {
+				if tr2.Names[j] != info.Names[j] {
+					k.Fail("mismatch", "post:rename-then-encode:stale-name", "glyph %d renamed in place from %.40q to %.40q and encoded again: the bytes carry %.40q for glyph %d (list has %.40q)", i, old, renamed, tr2.Names[j], j, info.Names[j])
+					break
+				}
+			}
+		}
+		k.Class("post:rename-then-encode")
+		info.Names[i] = old
+		if k.Guard("post.Info.Encode", func() { info.Encode() }) {
+			return
+		}
+	}
 	if dec.UnderlinePosition != info.UnderlinePosition || dec.UnderlineThickness != info.UnderlineThickness || dec.IsFixedPitch != info.IsFixedPitch || dec.ItalicAngle != info.ItalicAngle {
 		k.Fail("mismatch", "post:roundtrip-header", "read %v %d %d %v, written %v %d %d %v", dec.ItalicAngle, dec.UnderlinePosition, dec.UnderlineThickness, dec.IsFixedPitch,
 			info.ItalicAngle, info.UnderlinePosition, info.UnderlineThickness, info.IsFixedPitch)
